@@ -196,7 +196,7 @@ def run_tlc(module, cfg=None, workers=None, simulate=None, depth=None, seed=None
                 except ValueError:
                     pass
             if line.startswith("Error: Invariant") or line.startswith("Error: Action property") or \
-                    line.startswith("Error: Temporal properties were violated") or line.startswith("Error: Deadlock reached") \
+                    line.startswith("Error: Temporal properties were violated") or line.startswith("Error: Temporal property") or line.startswith("Error: Deadlock reached") \
                     or line.startswith("Error: Postcondition"):
                 if capture_violation is None:
                     capture_violation = [line]
